@@ -101,13 +101,14 @@ def name_str(n):
 
 def cfg_term(maxchain):
     """The model configuration.  Normally Meta.Corr.code_cfg (the repairs /repo has, recorded in Corr.v);
-    JIVA_META_FIXES=f5,f9,f10,f11,f12 overrides it for trying a patch in a scratch worktree."""
+    JIVA_META_FIXES=f5,f9,f10,f11,f12,f13 overrides it for trying a patch in a scratch worktree."""
     fx = os.environ.get("JIVA_META_FIXES")
     n = maxchain or 1024
     if fx is None:
         return "code_cfg %d" % n
     have = set(x.strip() for x in fx.split(",") if x.strip())
-    return "mkcfg %d %s %s %s %s %s" % (n, bt("f5" in have), bt("f9" in have), bt("f10" in have), bt("f11" in have), bt("f12" in have))
+    return "mkcfg %d %s %s %s %s %s %s" % (n, bt("f5" in have), bt("f9" in have), bt("f10" in have), bt("f11" in have), bt("f12" in have),
+                                          bt("f13" in have))
 
 
 class Tables:
@@ -396,6 +397,8 @@ class Gen:
         self.size = SIZE
         self.rebuilding = False
         self.removed = []               # snapshot ids removed from the chain in this session
+        self.dirty = False              # a write may have reached the head since the last snapshot
+        self.hasdata = {}               # snapshot id -> may hold data
         self.block_rate = 0.07          # rate of operations made to fail by an obstacle
         self.block_known = False        # also the three shapes of known findings (snapshot / resize / set-checkpoint at volume.meta.tmp)
         self.replace_rate = 0.05        # rate of ReplaceDisk requests
@@ -408,6 +411,12 @@ class Gen:
         x = rng.random()
         i = rng.randrange(0, len(self.chain) - 1)
         src, tgt = self.chain[i], self.chain[i + 1]
+        # the coalesce path is only asked for two snapshots that hold no data: ReplaceDisk presupposes that the caller has
+        # merged the target's blocks into the source; without that the target's data is gone by contract, and the running
+        # process (stale location table) and a reopened one read different data
+        empty = self.hasdata.get(src) is False and self.hasdata.get(tgt) is False
+        if x < 0.45 and not empty:
+            x = 0.45 + 0.55 * rng.random()
         if x < 0.45:
             self.chain.remove(src)
             self.removed.append(src)
@@ -454,7 +463,18 @@ class Gen:
         """one generator step; now and then the operation is made to FAIL by an obstacle at volume.meta.tmp (or at the
         new head's .meta.tmp): a directory at that name, so that encodeToFile's open fails"""
         snapshot = (self.open, self.mode, list(self.chain), list(self.offchain), self.head, self.size, self.rebuilding, list(self.removed))
+        was_open = self.open
         ops = self.step0()
+        for o in ops:
+            # which snapshots hold data (conservatively): ReplaceDisk is only asked to swap two snapshots that hold none,
+            # see replace_op
+            if o["op"] == "write":
+                self.dirty = True
+            elif o["op"] == "snap":
+                sure = was_open and self.mode in ("RW", "WO") and o["s"] == self.next_snap and len(self.chain) <= 3
+                self.hasdata[o["s"]] = self.dirty or not sure
+                if sure:
+                    self.dirty = False
         if len(ops) == 1 and ops[0]["op"] in self.BLOCKABLE and self.created and self.rng.random() < self.block_rate:
             o = ops[0]
             blk = [("voltmp",)]
@@ -463,6 +483,9 @@ class Gen:
             if o["op"] in ("resize", "checkpoint") and not self.block_known:
                 return ops              # (known findings: the in-memory value is set before the write; dedicated histories only)
             o["blk"] = blk
+            if o["op"] == "snap":
+                self.hasdata[o["s"]] = True
+                self.dirty = True
             # the operation fails: the abstract state stays as it was (close: the replica stays open)
             (self.open, self.mode, self.chain, self.offchain, self.head, self.size, self.rebuilding, self.removed) = snapshot
             if o["op"] == "close":
@@ -631,7 +654,8 @@ def known_cases():
     ]
 
 
-def shrink(ctx, binpath, case, still_bad, tag="shr"):
+def shrink(ctx, binpath, case, still_bad, tag="shr", pred3=None):
+    """pred3(b, candidate_case, candidate_outs), when given, decides instead of still_bad(b)"""
     cur = list(case["ops"])
     rounds = 0
     changed = True
@@ -643,12 +667,14 @@ def shrink(ctx, binpath, case, still_bad, tag="shr"):
         if not cands:
             break
         try:
-            bad, _, _ = run_cases(ctx, binpath, [dict(ops=c, maxchain=case.get("maxchain", 0)) for c in cands], tag="%s%d" % (tag, rounds))
+            bad, _, couts = run_cases(ctx, binpath, [dict(ops=c, maxchain=case.get("maxchain", 0)) for c in cands], tag="%s%d" % (tag, rounds))
         except (Unmodelled, RuntimeError):
             break
-        badidx = {b["case"]: b for b in bad}
+        badidx = {}
+        for b in bad:
+            badidx.setdefault(b["case"], b)
         for i, c in enumerate(cands):
-            if i in badidx and still_bad(badidx[i]):
+            if i in badidx and (pred3(badidx[i], dict(ops=c, maxchain=case.get("maxchain", 0)), couts[i]) if pred3 else still_bad(badidx[i])):
                 cur = c
                 changed = True
                 break
